@@ -224,6 +224,11 @@ def soil_evaporation(
         # Calculate potential soil evaporation (given current canopy cover
         # size)
         EsPot = Soil_Kex * (1 - NewCond_CCadj) * et0
+        # The canopy cover adjusted for micro-advective effects exceeds 1 once
+        # canopy cover is above ~0.966 (crops with CCx of 0.98-0.99):
+        # potential evaporation is then zero, not negative
+        if EsPot < 0:
+            EsPot = 0
 
         # Adjust potential soil evaporation for effects of withered canopy
         if (tAdj > Crop_Senescence) and (NewCond_CCxAct > 0):
